@@ -44,8 +44,12 @@ def mapPt (s : Sc) (x : Rat) : Option I :=
       let den := I.sub lmx lmn
       let y := I.div (I.sub lx lmn) den
       let dmag := ratMin (ratAbs den.lo) (ratAbs den.hi)
-      let t := 64 * eps * (ratAbs lx.hi + ratAbs lx.lo + ratAbs lmn.hi + ratAbs lmn.lo + ratAbs lmx.hi + ratAbs lmx.lo) / dmag +
-               16 * eps * (ratMax (ratAbs y.lo) (ratAbs y.hi) + 1)
+      -- y = N/D in floats: δy ≤ δN/|D| + |y| δD/|D|; both δN, δD are a few ε times the logarithms'
+      -- magnitudes, so the bound carries the factor (1 + |y|) (it matters when x lies far outside
+      -- a narrow domain: |y| ≫ 1)
+      let ymag := ratMax (ratAbs y.lo) (ratAbs y.hi)
+      let t := 64 * eps * (ratAbs lx.hi + ratAbs lx.lo + ratAbs lmn.hi + ratAbs lmn.lo + ratAbs lmx.hi + ratAbs lmx.lo) / dmag * (1 + ymag) +
+               16 * eps * (ymag + 1)
       let y := widen y t
       let y := if neg then I.sub (I.ofRat 1) y else y
       some (if cl then clampI y else y)
